@@ -285,6 +285,15 @@ func resolvePath(basePath *url.URL, componentPath *url.URL) *url.URL {
 	if is_file(componentPath) {
 		// support absolute paths
 		if filepath.IsAbs(componentPath.Path) {
+			if basePath != nil && basePath.Host != "" && componentPath.Scheme == "" {
+				// inside a remote document an absolute path names a location of the same host,
+				// not a local file
+				newPath := *basePath
+				newPath.Path = componentPath.Path
+				newPath.RawPath = componentPath.RawPath
+				newPath.RawQuery = componentPath.RawQuery
+				return &newPath
+			}
 			return componentPath
 		}
 		return join(basePath, componentPath)
